@@ -529,6 +529,49 @@ class GateInterp(Interp):
         return ("opaque", name)
 
 
+class ArmInterp(GateInterp):
+    """GateInterp plus scripts: the truth of each test of a tape cell (in order), the result of each recursive call of the
+    interpreter function, and - after the first charge - whether the budget has become zero."""
+
+    def __init__(self, ast, path, budget_zero, limited_name, limited, conds, nested, self_name, zero_after=None):
+        super().__init__(ast, path, budget_zero, limited_name)
+        self.limited, self.conds, self.nested, self.self_name = limited, list(conds), list(nested), self_name
+        self.nested_calls = 0
+        self.zero_after = zero_after
+        self.touched = False
+
+    def eval(self, e, env):
+        t = e.get("t")
+        if t == "PathExpr" and e["path"]["name"] == self.limited_name:
+            return self.limited
+        if t == "Field" and e["member"] == "budget":
+            self.touched = True
+        if t == "Binary" and e["op"] == "-=" and is_budget(e["left"]):
+            r = super().eval(e, env)
+            if self.zero_after is not None:
+                self.zero = self.zero_after.pop(0) if self.zero_after else True
+            return r
+        return super().eval(e, env)
+
+    def binary(self, op, l, r, node):
+        budget_test = ("budget",) in (l, r)
+        if not budget_test and op in ("==", "!=") and (isinstance(l, tuple) or isinstance(r, tuple)):
+            if not self.conds:
+                raise Unanalysable("more tests of tape cells than the scenario scripts")
+            v = self.conds.pop(0)
+            # the script gives the truth of `cell != 0`
+            return v if op == "!=" else not v
+        return super().binary(op, l, r, node)
+
+    def call(self, name, targs, args, node):
+        if name.split("::")[-1] == self.self_name:
+            self.nested_calls += 1
+            if not self.nested:
+                raise Unanalysable("more nested calls than the scenario scripts")
+            return self.nested.pop(0)
+        return super().call(name, targs, args, node)
+
+
 def gate_semantics(ast, path, stmts, env_names, limited_name, notfinished):
     """-> (ok, message).  `stmts`: what runs after the loop body / nested block, up to the back edge."""
     out = {}
@@ -662,36 +705,51 @@ def run_lim(res, ast, with_jit=True):
                 continue
             a = arms[vn]
             w = where(IRINT, a, "execute_block")
-            ab = strip_paren(a["body"])
-            # the statement list that directly contains the nested execute_block call (wherever the arm nests it)
-            holder = []
-            for blk in walk_t(ab, "Block"):
-                for i_, s_ in enumerate(blk["stmts"]):
-                    direct = [c for c in walk_t(s_, "Call") if path_name(strip_paren(c["func"])) == "execute_block"]
-                    nested = any(any(path_name(strip_paren(c["func"])) == "execute_block" for c in walk_t(b2, "Call")) for b2 in walk_t(s_, "Block"))
-                    if direct and not nested:
-                        holder.append((blk, i_))
-            if len(holder) != 1:
-                res.bad("LIM-BACKEDGE", key, w, f"{vn}: expected exactly one nested execute_block call in the arm, found {len(holder)}")
-                continue
-            inner, at = holder[0][0]["stmts"], holder[0][1]
-            rec = [at]
-            if kind == "While":
-                # the call must sit directly in the body of the loop statement (every iteration reaches the gate)
-                lps = [l for l in walk_t(ab, "While", "Loop") if l["body"] is holder[0][0]]
-                if len(lps) != 1:
-                    res.bad("LIM-BACKEDGE", key, w, f"{vn}: the nested block is not executed directly in the body of the loop statement (fail closed)")
-                    continue
             gens = [g["name"] for g in f["node"]["sig"]["generics"]["params"] if g["t"] == "ConstParam"]
             limn = gens[0] if gens else "LIMITED"
-            if len(rec) != 1:
-                res.bad("LIM-BACKEDGE", key, w, f"{vn}: expected exactly one nested execute_block call")
-                continue
-            after = inner[rec[0] + 1:]
             ps_ = [p_["pat"]["name"] for p_ in f["node"]["sig"]["inputs"] if p_["t"] == "Arg" and p_["pat"]["t"] == "PIdent"]
-            good, why = gate_semantics(ast, IRINT, after, ps_ + ["block", "cond"], limn, lambda v: isinstance(v, Opt) and v.some and v.v is False)
-            res.check(good, "LIM-BACKEDGE", key, w,
-                      f"{vn}: after the nested block (it also carries the abort of a nested loop outwards): " + why)
+            binds = ps_ + [n_["name"] for n_ in walk_t(a["pat"], "PIdent")]
+            is_loop = kind == "While"
+            OKT, OKF = Some(True), Some(False)
+            # (what, limited, budget zero on entry, cell tests, nested results, zero after each charge) -> (outcome, nested calls, charges)
+            scen = [("cell zero: body skipped", True, False, [False], [], None, ("falls", 0, 0)),
+                    ("one round, budget left", True, False, [True, False] if is_loop else [True], [OKT], [False], ("falls", 1, 1)),
+                    ("one round, budget exhausted", True, True, [True], [OKT], None, ("returns-false", 1, 0)),
+                    ("nested run stopped by I/O", True, False, [True], [NONE], None, ("returns-none", 1, 0)),
+                    ("nested run out of budget", True, True, [True], [OKF], None, ("returns-false", 1, 0)),
+                    ("unlimited ignores the budget", False, True, [True, False] if is_loop else [True], [OKT], None, ("falls-untouched", 1, 0))]
+            if is_loop:
+                scen.append(("two rounds, budget left", True, False, [True, True, False], [OKT, OKT], [False, False], ("falls", 2, 2)))
+                scen.append(("second round exhausts the budget", True, False, [True, True], [OKT, OKT], [True], ("returns-false", 2, 1)))
+            bad_ = []
+            for what, lim, zero, conds, nested, zafter, want in scen:
+                it = ArmInterp(ast, IRINT, zero, limn, lim, conds, nested, f["name"], zero_after=list(zafter) if zafter is not None else None)
+                env = Env()
+                for n_ in binds:
+                    env.bind(n_, ("opaque", n_))
+                res.evaluations += 1
+                try:
+                    try:
+                        it.eval(a["body"], env)
+                        got = "falls"
+                    except ReturnEx as r_:
+                        v_ = r_.value
+                        got = "returns-false" if (isinstance(v_, Opt) and v_.some and v_.v is False) else "returns-none" if (isinstance(v_, Opt) and not v_.some) else f"returns {v_!r}"
+                    except ContinueEx:
+                        got = "falls"
+                    except Exhausted:
+                        got = "budget underflow"
+                    if want[0] == "falls-untouched":
+                        okk = got == "falls" and not it.touched and it.nested_calls == want[1]
+                    else:
+                        okk = got == want[0] and it.nested_calls == want[1] and it.decs == want[2]
+                    if not okk:
+                        bad_.append(f"{what}: {got} after {it.nested_calls} nested run(s) and {it.decs} charge(s)" + (" (budget consulted)" if it.touched and not lim else "")
+                                    + f", expected {want[0]} after {want[1]} and {want[2]}")
+                except (Unanalysable, Reached, BreakEx, KeyError, TypeError) as u_:
+                    bad_.append(f"{what}: cannot be analysed (fail closed): {u_}")
+            res.check(not bad_, "LIM-BACKEDGE", key, w, f"{vn}: every execution of the nested block must be followed by the budget gate (which also carries an abort of the "
+                      "nested run outwards): " + "; ".join(bad_[:2]))
     except Missing as m:
         res.missing("LIM-BACKEDGE", m)
     # ---- bytecode interpreter (structural patterns, independent of local names)
